@@ -2231,8 +2231,17 @@ def gen_timed_prog(rng):
     """sleep (valid and malformed durations), timedlock against a holder that releases before / after the
     deadline, timedjoin against a target that finishes before / after the deadline; other threads keep running"""
     bodies = []
-    kind = rng.choice(('sleep', 'sleep', 'tlock', 'tlock', 'tjoin', 'mix', 'longsleep'))
+    kind = rng.choice(('sleep', 'sleep', 'tlock', 'tlock', 'tjoin', 'mix', 'longsleep', 'edges'))
     main_extra = []
+    if kind == 'edges':
+        # every edge of the valid range of the nanosecond (and second) field in one program: both ends, just outside
+        cases = [(0, 0), (0, 1), (0, 999999999), (0, 1000000000), (0, 1000000001), (0, -1), (-1, 0), (-1, 999999999), (1, 1000000000),
+                 (0, 2147483647), (1, 999999999), (2, 0)]
+        rng.shuffle(cases)
+        half = len(cases) // 2
+        bodies = [[(OP['SLEEP'], a_, b_, 0) for a_, b_ in cases[:half]], [(OP['SLEEP'], a_, b_, 0) for a_, b_ in cases[half:]],
+                  [(OP['YD'], 2, 0, 0)] * rng.randint(1, 4)]
+        return {'init': [(5, 0, 700)], 'bodies': _spawn_join(rng, bodies)}
     if kind == 'longsleep':
         # usleep / sleep with long durations (the virtual clock advances by up to 0.7 s per reading): values around the
         # points where 32-bit microsecond arithmetic wraps (2^32 / 1000 us) and around whole seconds
